@@ -216,16 +216,22 @@ func (s *encoder) Run(ctx context.Context) {
 		return
 	}
 
-	s.canEncode = true
-
 	maxLongLength, perMsgLength := encoder.SplitBy()
 	// short message
 	if len(encodedData) <= maxLongLength {
+		s.canEncode = true
 		s.data = [][]byte{encodedData}
 		return
 	}
 
-	s.data = splitWithUDHI(encodedData, perMsgLength, s.frameKey)
+	contents, err := splitWithUDHI(encodedData, perMsgLength, s.frameKey)
+	if err != nil {
+		s.canEncode = false
+		s.reason = fmt.Sprintf("%s split error: %v", s.Name(), err)
+		return
+	}
+	s.canEncode = true
+	s.data = contents
 }
 
 func (s *encoder) Result() (contents [][]byte, actualMsgFmt datacoding.ProtocolDataCoding, err error) {
